@@ -32,10 +32,16 @@ func genC08M(c *Ctx) *Plan {
 	p := &Plan{Cfg: benchCfg(r), P: map[string]int64{}, YieldOff: []string{"*"}}
 	p.Cfg.GossipToDeadMs = 3600_000
 	cell := int((c.Seed - 1) % 10_000_000)
-	if cell >= c08GridSize() {
+	if cell >= 2*c08GridSize() {
 		cell = r.intn(c08GridSize())
 		p.P["random_extra"] = 1
 		p.P["base"] = int64(r.pick(2, 5, 1<<31))
+		p.P["v6"] = int64(r.intn(2))
+	} else if cell >= c08GridSize() {
+		// the whole grid once more with IPv6 addresses (16-byte forms never collapse to 4 bytes)
+		cell -= c08GridSize()
+		p.P["base"] = 5
+		p.P["v6"] = 1
 	} else {
 		p.P["base"] = 5
 	}
@@ -59,7 +65,13 @@ func execC08M(c *Ctx) {
 	m := b.n.m
 	base := uint32(p.param("base", 5))
 	addrA := net.IPv4(10, 0, 0, 50).To4()
-	m.aliveNode(&alive{Incarnation: 1, Node: "p1", Addr: net.IPv4(10, 0, 0, 60).To4(), Port: 7946, Vsn: c01Vsn(0)}, nil, false)
+	addrP1 := net.IPv4(10, 0, 0, 60).To4()
+	addrOther := net.IPv4(10, 0, 0, 51).To4()
+	if p.param("v6", 0) == 1 {
+		addrA, addrP1, addrOther = net.ParseIP("fd00::50"), net.ParseIP("fd00::60"), net.ParseIP("fd00::51")
+		c.Reach("ipv6_cells")
+	}
+	m.aliveNode(&alive{Incarnation: 1, Node: "p1", Addr: addrP1, Port: 7946, Vsn: c01Vsn(0)}, nil, false)
 	m.aliveNode(&alive{Incarnation: base, Node: "x", Addr: addrA, Port: 7946, Meta: []byte("meta0"), Vsn: c01Vsn(0)}, nil, false)
 	switch holder {
 	case "suspect":
@@ -83,7 +95,7 @@ func execC08M(c *Ctx) {
 	ca, cport := addrA, uint16(7946)
 	switch addrSel {
 	case "other-ip":
-		ca = net.IPv4(10, 0, 0, 51).To4()
+		ca = addrOther
 	case "other-port":
 		cport = 7999
 	}
@@ -94,7 +106,7 @@ func execC08M(c *Ctx) {
 		m.aliveNode(&alive{Incarnation: inc, Node: "x", Addr: ca, Port: cport, Meta: meta, Vsn: c01Vsn(0)}, nil, false)
 	case "udp":
 		raw := mustEncode(aliveMsg, &alive{Incarnation: inc, Node: "x", Addr: ca, Port: cport, Meta: meta, Vsn: c01Vsn(0)})
-		b.inject(b.wrapPacket(raw, false, false), &net.UDPAddr{IP: net.IPv4(10, 0, 0, 60).To4(), Port: 7946})
+		b.inject(b.wrapPacket(raw, false, false), &net.UDPAddr{IP: addrP1, Port: 7946})
 	case "pushpull":
 		m.mergeState([]pushNodeState{{Name: "x", Addr: ca, Port: cport, Meta: meta, Incarnation: inc, State: StateAlive, Vsn: c01Vsn(0)}})
 	}
@@ -110,7 +122,7 @@ func execC08M(c *Ctx) {
 			c.Violate("spurious-conflict", "", "obs", "%s: conflict callback fired for an identical address", what)
 		}
 		c.Res.Nontrivial = true
-		c.Res.FP = fmt.Sprintf("cell%d-%d", p.param("cell", 0), base)
+		c.Res.FP = fmt.Sprintf("cell%d-%d-%d", p.param("cell", 0), base, p.param("v6", 0))
 		return
 	}
 	accept := false
@@ -147,7 +159,7 @@ func execC08M(c *Ctx) {
 		c.Reach("conflict_notified")
 	}
 	c.Res.Nontrivial = true
-	c.Res.FP = fmt.Sprintf("cell%d-%d", p.param("cell", 0), base)
+	c.Res.FP = fmt.Sprintf("cell%d-%d-%d", p.param("cell", 0), base, p.param("v6", 0))
 	c.Res.Sample = map[string]any{"cell": what}
 }
 
